@@ -33,15 +33,37 @@ class Check:
         self.extra = {}
         self.explanation = ""
         self.prefix = ""          # set while the library rules are re-run on another build configuration
+        self.rename = None        # (from, to): while the rules of another property are evaluated under this one
         self.cfg_rerun = False
 
     # -- recording
+    def _rn(self, rule):
+        if self.rename and rule.startswith(self.rename[0]):
+            return self.rename[1] + rule[len(self.rename[0]):]
+        return rule
+
+    def under(self, frm, to):
+        """with ck.under("C03-", "C06-C"): rule ids C03-x recorded as C06-Cx (rules of a neighbouring property that are
+        necessary conditions of this one as well)"""
+        ck = self
+
+        class _U:
+            def __enter__(self_):
+                self_.old = ck.rename
+                ck.rename = (frm, to)
+
+            def __exit__(self_, *a):
+                ck.rename = self_.old
+        return _U()
+
     def ok(self, rule, key, detail="", loc=None, trivial=False):
         key = self.prefix + key
+        rule = self._rn(rule)
         self.instances.append({"rule": rule, "key": key, "ok": True, "detail": detail, "loc": loc, "trivial": trivial})
 
     def bad(self, rule, key, detail, loc=None, data=None):
         key = self.prefix + key
+        rule = self._rn(rule)
         self.instances.append({"rule": rule, "key": key, "ok": False, "detail": detail, "loc": loc, "trivial": False})
         self.violations.append({"rule": rule, "key": key, "detail": detail, "loc": loc, "data": data})
 
@@ -50,6 +72,7 @@ class Check:
         Only used where another rule of the same property (translation validation / compile-fail witnesses) decides the
         clause on its own; primary rules fail closed instead."""
         key = self.prefix + key
+        rule = self._rn(rule)
         self.instances.append({"rule": rule, "key": key, "ok": True, "detail": "NOT EVALUATED: " + detail, "loc": loc, "trivial": True})
         self.extra.setdefault("not_evaluated", []).append({"rule": rule, "site": key, "why": detail})
 
@@ -62,7 +85,7 @@ class Check:
 
     def floor(self, rule, what, count, minimum):
         """Fail closed when a rule matched fewer sites than were confirmed by hand."""
-        self.floors.append({"rule": rule, "what": what, "count": count, "floor": minimum})
+        self.floors.append({"rule": self._rn(rule), "what": what, "count": count, "floor": minimum})
         if count < minimum:
             self.bad(rule, "floor:" + what, "found %d instances of %s, floor is %d (anchor missing or matcher blind)" % (count, what, minimum))
         return count >= minimum
